@@ -24,6 +24,8 @@ for prop in props:
     for patch in sorted(glob.glob(f"/tmp/mut/{prop}/_mutants/m?.patch.diff")):
         m = os.path.basename(patch).split(".")[0]
         v = val.get((prop, m))
+        if os.path.exists(f"/verif/seeded/{prop}-{m}/meta.json") and not os.environ.get("MATRIX_FORCE"):
+            continue
         if not v or v.get("status") != "VALID":
             print(prop, m, "skipped (not validated)"); continue
         base = patch[:-len(".patch.diff")]
